@@ -126,40 +126,36 @@ structure OffsetFormat where
   padding : Pad
   deriving DecidableEq, Repr
 
-/-- `OffsetFormat::format(&self, w, off)`; `off` = `local_minus_utc` (`i32`, `|off| < 86400`) -/
-def OffsetFormat.format (f : OffsetFormat) (off : Int) : W :=
-  if f.allow_zulu ∧ off = 0 then wok [90] else
-  let sign : Nat := if off < 0 then 45 else 43
-  let off := if off < 0 then -off else off
-  -- (hours, mins, secs, effective precision), each narrowed with `as u8`
-  let r : Int × Int × Int × OffsetPrecision :=
-    match f.precision with
-    | .hours => (asU8 (Int.tdiv off 3600), 0, 0, .hours)
-    | .minutes | .optionalMinutes =>
-      let minutes := Int.tdiv (off + 30) 60
-      let mins := asU8 (Int.tmod minutes 60)
-      let hours := asU8 (Int.tdiv minutes 60)
-      if f.precision = .optionalMinutes ∧ mins = 0 then (hours, mins, 0, .hours)
-      else (hours, mins, 0, .minutes)
-    | .seconds | .optionalSeconds | .optionalMinutesAndSeconds =>
-      let minutes := Int.tdiv off 60
-      let secs := asU8 (Int.tmod off 60)
-      let mins := asU8 (Int.tmod minutes 60)
-      let hours := asU8 (Int.tdiv minutes 60)
-      if f.precision ≠ .seconds ∧ secs = 0 then
-        if f.precision = .optionalMinutesAndSeconds ∧ mins = 0 then (hours, mins, secs, .hours)
-        else (hours, mins, secs, .minutes)
-      else (hours, mins, secs, .seconds)
-  let hours := r.1
-  let mins := r.2.1
-  let secs := r.2.2.1
-  let precision := r.2.2.2
-  let colons := f.colons = .colon
-  let hh : W :=
-    if hours < 10 then
-      wok ((if f.padding = .space then [32] else []) ++ [sign]
-           ++ (if f.padding = .zero then [48] else []) ++ pushChar (48 + hours).toNat)
-    else (wok [sign]).seq (write_hundreds hours)
+/-- the hour part: `if hours < 10 { [' '] sign ['0'] digit } else { sign, write_hundreds(hours) }` -/
+def hoursText (padding : Pad) (sign : Nat) (hours : Int) : W :=
+  if hours < 10 then
+    wok ((if padding = .space then [32] else []) ++ [sign]
+         ++ (if padding = .zero then [48] else []) ++ pushChar (48 + hours).toNat)
+  else (wok [sign]).seq (write_hundreds hours)
+
+/-- `(hours, mins, secs, effective precision)` of `OffsetFormat::format`, each narrowed with `as u8`;
+`off` is already the absolute value -/
+def offsetParts (precision : OffsetPrecision) (off : Int) : Int × Int × Int × OffsetPrecision :=
+  match precision with
+  | .hours => (asU8 (Int.tdiv off 3600), 0, 0, .hours)
+  | .minutes | .optionalMinutes =>
+    let minutes := Int.tdiv (off + 30) 60
+    let mins := asU8 (Int.tmod minutes 60)
+    let hours := asU8 (Int.tdiv minutes 60)
+    if precision = .optionalMinutes ∧ mins = 0 then (hours, mins, 0, .hours)
+    else (hours, mins, 0, .minutes)
+  | .seconds | .optionalSeconds | .optionalMinutesAndSeconds =>
+    let minutes := Int.tdiv off 60
+    let secs := asU8 (Int.tmod off 60)
+    let mins := asU8 (Int.tmod minutes 60)
+    let hours := asU8 (Int.tdiv minutes 60)
+    if precision ≠ .seconds ∧ secs = 0 then
+      if precision = .optionalMinutesAndSeconds ∧ mins = 0 then (hours, mins, secs, .hours)
+      else (hours, mins, secs, .minutes)
+    else (hours, mins, secs, .seconds)
+
+/-- the minutes and seconds parts, each behind an optional colon -/
+def tailText (colons : Bool) (precision : OffsetPrecision) (mins secs : Int) : W :=
   let mm : W :=
     if precision = .minutes ∨ precision = .seconds then
       (wok (if colons then [58] else [])).seq (write_hundreds mins)
@@ -167,7 +163,15 @@ def OffsetFormat.format (f : OffsetFormat) (off : Int) : W :=
   let ss : W :=
     if precision = .seconds then (wok (if colons then [58] else [])).seq (write_hundreds secs)
     else wok []
-  (hh.seq mm).seq ss
+  mm.seq ss
+
+/-- `OffsetFormat::format(&self, w, off)`; `off` = `local_minus_utc` (`i32`, `|off| < 86400`) -/
+def OffsetFormat.format (f : OffsetFormat) (off : Int) : W :=
+  if f.allow_zulu ∧ off = 0 then wok [90] else
+  let sign : Nat := if off < 0 then 45 else 43
+  let off := if off < 0 then -off else off
+  let r := offsetParts f.precision off
+  (hoursText f.padding sign r.1).seq (tailText (f.colons = .colon) r.2.2.2 r.2.1 r.2.2.1)
 
 /-! ### RFC 3339 / RFC 2822 writers -/
 
